@@ -32,6 +32,8 @@ func c06Inputs() []c06Input {
 		jr.T("2020-01-30", "d", jr.B(accChecking, accRent, "3", "CHF")),
 		jr.T("2020-01-31", "e", jr.B(accOpening, accCash, "10", "USD")),
 		jr.T("2020-01-31", "f", jr.B(accOpening, accBaenk, "10", "USD")),
+		jr.T("2020-01-31", "g", jr.B(accOpening, accBank, "10", "USD")),
+		jr.T("2020-01-31", "g", jr.B(accOpening, accChecking, "10", "USD")),
 		jr.P("2020-01-30", "USD", "1", "CHF"),
 	})
 	for _, a := range [][]string{
